@@ -169,6 +169,8 @@ impl FeatureState for MultiTripState {
                 .collect::<HashSet<_>>();
 
             solution_ctx.ignored.retain(|job| !jobs.contains(job));
+            // NOTE some of these jobs are already in required
+            solution_ctx.required.retain(|job| !jobs.contains(job));
             solution_ctx.locked.extend(jobs.iter().cloned());
             solution_ctx.required.extend(jobs);
         }
